@@ -53,6 +53,14 @@ pub fn adversarial_list() -> Vec<Vec<u8>> {
     for op in 0..=255u8 {
         v.push(vec![op]);
     }
+    // beyond 1 MiB (any chunked reader / hex encoder / buffer): one filler string and one OP_RETURN with a PUSHDATA4 payload
+    v.push(vec![0x51; 1_200_000]);
+    v.push({
+        let mut s = vec![0x6a, 0x4e];
+        s.extend_from_slice(&(1_100_000u32).to_le_bytes());
+        s.extend(std::iter::repeat(b'm').take(1_100_000));
+        s
+    });
     let mut seen = BTreeSet::new();
     v.retain(|s| seen.insert(s.clone()));
     v
